@@ -293,6 +293,8 @@ class Ctx:
         for bad in res["bads"]:
             if job["only_bads"] and bad not in job["only_bads"]:
                 continue
+            if job.get("skip_bads") and re.search(job["skip_bads"], bad):
+                continue
             if min_K is not None and min_K < K:
                 # frames 0..min_K must be decided; deeper frames are explored in chunks under the time budget and the
                 # depth actually discharged is reported (a timeout there is a stated bound, not a pass and not a failure)
